@@ -578,6 +578,9 @@ def gen_total(r):
         return {'kind': 'total', 'bytes': ''.join(chr(r.randint(0, 255)) for _ in range(r.randint(0, 12)))}
     if r.random() < 0.3:
         s = 'see ' + s + ' and www.' + s + ' (http://' + s + ').'
+    if r.random() < 0.01:
+        # a port of thousands of digits (beyond the interpreter's limit for converting digit strings)
+        s = r.choice(['http://h:', 'see www.x.org:', '//[::1]:', 'http://u@h:']) + r.choice(['1', '0', '9']) * r.choice([4299, 4300, 4301, 5000, 20000]) + r.choice(['', '/p', '?q'])
     return {'kind': 'total', 'text': s}
 
 
@@ -631,6 +634,8 @@ def gen(r):
     if x < 0.55:
         return {'kind': 'unquote', 'other_first': r.random() < 0.4, 'text': ''.join(r.choice(['%', '%4', '%41', '%C3', '%A9', '%c3%a9', '%FF', 'a',
                                                               '\xe9', '%zz', '%%', '+', ' ', '%00', '\u65e5', '%E6%97',
+                                                              # '%' followed by decimal digits that are not ASCII: not an escape
+                                                              '%\u0664\u0661', '%\uff14\uff11', '%4\u0661', '%\u0664A', '%\u0966\u0967',
                                                               '%' + r.choice('0123456789abcdefABCDEF') + r.choice('0123456789abcdefABCDEF')])
                                                     for _ in range(r.randint(0, 8)))}
     if x < 0.8:
